@@ -458,3 +458,105 @@ def unroll_constant_tables(repo, mod, expr):
                     ctx=ast.Load()), n)
             return n
     return U().visit(copy.deepcopy(expr))
+
+
+def inline_tail_calls(repo, fi, depth=2):
+    """A copy of fi whose `return self.helper(a, b)` / `return _helper(a,
+    b)` statements are replaced by the helper's body (parameters replaced
+    by the argument expressions, the helper's own locals renamed): what a
+    rule anchored on one function sees when part of that function was
+    moved into a helper it ends with.  Returns fi itself if nothing was
+    inlined."""
+    import copy
+    from sa import model as _m
+
+    def helper_of(call):
+        f = call.func
+        if isinstance(f, ast.Attribute) and isinstance(
+                f.value, ast.Name) and fi.cls is not None and \
+                fi.params() and f.value.id == fi.params()[0]:
+            h = repo.find_method(fi.cls, f.attr)
+            return h, True
+        if isinstance(f, ast.Name):
+            h = fi.module.functions.get(f.id)
+            if h is not None and h.parent_func is None and h.cls is None:
+                return h, False
+        return None, False
+
+    def expand(ret, level):
+        call = ret.value
+        if not isinstance(call, ast.Call) or level > depth:
+            return None
+        h, is_method = helper_of(call)
+        if h is None or h.node is fi.node or call.keywords or any(
+                isinstance(a, ast.Starred) for a in call.args):
+            return None
+        a = h.node.args
+        if a.vararg or a.kwarg or a.kwonlyargs:
+            return None
+        ps = [x.arg for x in a.posonlyargs + a.args]
+        actual = ([call.func.value] if is_method else []) + list(call.args)
+        defaults = list(a.defaults)
+        missing = len(ps) - len(actual)
+        if missing < 0 or missing > len(defaults):
+            return None
+        if missing:
+            actual += defaults[len(defaults) - missing:]
+        if not all(isinstance(x, (ast.Name, ast.Constant, ast.Attribute))
+                   for x in actual):
+            return None
+        if any(isinstance(n, (ast.Yield, ast.YieldFrom))
+               for n in _m.walk_shallow(h.node)):
+            return None
+        env = dict(zip(ps, actual))
+        locs = _m.local_names_of(h.node) - set(ps)
+
+        class R(ast.NodeTransformer):
+            def visit_Name(self, n):
+                if n.id in env and isinstance(n.ctx, ast.Load):
+                    return copy.deepcopy(env[n.id])
+                if n.id in locs:
+                    return ast.copy_location(ast.Name(
+                        id='_h%d_%s' % (level, n.id), ctx=n.ctx), n)
+                return n
+        # a parameter the helper re-binds cannot be substituted
+        for n in _m.walk_shallow(h.node):
+            if isinstance(n, ast.Name) and n.id in env and isinstance(
+                    n.ctx, (ast.Store, ast.Del)):
+                return None
+        body = [R().visit(copy.deepcopy(st))
+                for st in _m.strip_docstring(h.node.body)]
+        out = []
+        for st in body:
+            out.extend(rewrite([st], level + 1))
+        return out
+
+    def rewrite(stmts, level):
+        out = []
+        for st in stmts:
+            if isinstance(st, ast.Return) and st.value is not None:
+                e = expand(st, level)
+                if e is not None:
+                    changed[0] = True
+                    out.extend(e)
+                    continue
+            for fld in ('body', 'orelse', 'finalbody'):
+                sub = getattr(st, fld, None)
+                if isinstance(sub, list) and sub and isinstance(
+                        sub[0], ast.stmt) and not isinstance(
+                        st, (ast.FunctionDef, ast.ClassDef)):
+                    setattr(st, fld, rewrite(sub, level))
+            out.append(st)
+        return out
+
+    changed = [False]
+    node = copy.deepcopy(fi.node)
+    node.body = rewrite(node.body, 1)
+    if not changed[0]:
+        return fi
+    ast.fix_missing_locations(node)
+    _m._attach_parents(node)
+    clone = _m.FuncInfo(fi.module, fi.qualname, node, fi.cls,
+                        fi.parent_func)
+    clone.is_method = fi.is_method
+    return clone
